@@ -376,6 +376,13 @@ pub fn run_loc(files: &[(String, String)], raws: &[u32]) -> (String, String) {
             }
             Ok((None, fl)) => {
                 obs.push("none".into());
+                // a location that belongs to no file is printed as such, never as a position of some file
+                let want = if loc == SourceLocation::UNKNOWN { "error: probe\n" } else { "<unknown>: error: probe\nInvalid source\n" };
+                match guard(|| format!("{}", Probe(loc.offset(0)).display(&sm))) {
+                    Ok(t) if t == want => {}
+                    Ok(t) => fails.push(format!("location {} outside every file is printed as {:?}", r, t)),
+                    Err(p) => fails.push(format!("printing location {} panics: {}", r, p)),
+                }
                 if *r < total {
                     fails.push(format!("location {} below the total {} does not decode", r, total));
                 }
@@ -821,7 +828,7 @@ pub fn generate(args: &Args, rng: &mut Rng, out: &mut Out, hist: &mut Hist) -> u
                 rs.push(*b);
                 rs.push(*b + c.len() as u32);
             }
-            rs.extend_from_slice(&[total.saturating_sub(1), total, total + 1, total + 1000, u32::MAX - 1]);
+            rs.extend_from_slice(&[total.saturating_sub(1), total, total + 1, total + 1000, u32::MAX - 1, u32::MAX]);
             for _ in 0..4 {
                 rs.push(rng.below(total as u64 + 2) as u32);
             }
